@@ -117,7 +117,7 @@ Ext(n) == [k |-> "ext", n |-> n]
 ExtNames == {"Any", "object", "list", "dict", "tuple", "set", "frozenset", "typing.List", "typing.Dict", "typing.Tuple",
              "typing.Set", "typing.Mapping", "typing.Sequence", "typing.Iterable", "T_free", "T_bound", "T_constr",
              "Callable", "CallableBare", "CallableEll", "type[int]", "typing.Type", "Box", "Box[int]", "Box[T]", "NoHints",
-             "Empty", "WithAny"}
+             "Empty", "WithAny", "InitHints"}
 \* positions whose value must come back untouched
 PassThroughNames == {"Any", "object", "T_free", "Callable", "CallableBare", "CallableEll", "type[int]", "typing.Type"}
 ExtLeaves == {Ext(n) : n \in ExtNames}
